@@ -38,6 +38,8 @@ def main():
         for d in (pristine, patched):
             sh(["git", "-C", "/repo", "worktree", "add", "--detach", "-q", d, "HEAD"])
         r = sh(["git", "-C", patched, "apply", patch])
+        if r.returncode != 0:
+            r = sh(["git", "-C", patched, "apply", "--3way", patch])
         report["applies"] = r.returncode == 0
         if r.returncode != 0:
             report["apply_error"] = r.stderr[-500:]
